@@ -471,8 +471,15 @@ class cpr_drs {
 
             auto App = std::make_shared<build_matrix_p>();
             App->set_size(np, np, true);
-            App->set_nonzeros(K->nnz);
-            App->ptr[0] = 0;
+
+            // Only the couplings between active rows enter the pressure
+            // system and the row sums (as in the scalar variant).
+#pragma omp parallel for
+            for (ptrdiff_t i = 0; i < static_cast<ptrdiff_t>(np); ++i)
+                for(ptrdiff_t j = K->ptr[i]; j < K->ptr[i + 1]; ++j)
+                    if (K->col[j] < N) ++App->ptr[i+1];
+
+            App->set_nonzeros(App->scan_row_sizes());
 
 #pragma omp parallel for
             for (ptrdiff_t i = 0; i < static_cast<ptrdiff_t>(np); ++i) {
@@ -487,7 +494,7 @@ class cpr_drs {
 
                 ptrdiff_t row_beg = K->ptr[i];
                 ptrdiff_t row_end = K->ptr[i + 1];
-                App->ptr[i+1] = row_end;
+                ptrdiff_t head    = App->ptr[i];
 
                 value_type_p *d = &fpp->val[i * B];
                 const double *w = prm.weights.empty() ? nullptr : &prm.weights[i * B];
@@ -499,6 +506,8 @@ class cpr_drs {
                 for(ptrdiff_t j = row_beg; j < row_end; ++j) {
                     ptrdiff_t  c = K->col[j];
                     value_type v = K->val[j];
+
+                    if (c >= N) continue;
 
                     for(int k = 0; k < B; ++k) {
                         a_top[k] += std::abs(v(0,k));
@@ -523,13 +532,15 @@ class cpr_drs {
                 }
 
                 for(ptrdiff_t j = row_beg; j < row_end; ++j) {
-                    App->col[j] = K->col[j];
+                    if (K->col[j] >= N) continue;
 
                     value_type_p app = 0;
                     for(int k = 0; k < B; ++k)
                         app += d[k] * K->val[j](k,0);
 
-                    App->val[j] = app;
+                    App->col[head] = K->col[j];
+                    App->val[head] = app;
+                    ++head;
                 }
             }
 
@@ -585,6 +596,8 @@ class cpr_drs {
                 for(ptrdiff_t j = row_beg; j < row_end; ++j) {
                     ptrdiff_t  c = K->col[j];
                     value_type v = K->val[j];
+
+                    if (c >= N) continue;
 
                     for(int k = 0; k < B; ++k) {
                         a_top[k] += std::abs(v(0,k));
